@@ -36,12 +36,16 @@ type Pred struct {
 
 // TmplPart is one element of a template of the mini-grammar the harness can expand itself.
 type TmplPart struct {
-	// Kind: lit | label | line | ts_nanos | ts_unix | upper | lower | ToUpper | ToLower |
-	// printf2 | default | trim | unix_of_label | fail_unixToTime | fail_regex
-	Kind string `json:"kind"`
-	Text string `json:"text,omitempty"` // literal text, default value
-	A    string `json:"a,omitempty"`    // label
-	B    string `json:"b,omitempty"`    // second label (printf2)
+	// Kind: lit | label | line | ts_nanos | ts_unix | ts_millis | upper | lower | ToUpper | ToLower |
+	// printf2 | default | trim | unix_of_label | fail_unixToTime | fail_regex |
+	// alignLeft | alignRight (N characters) | replace (Text -> Text2) | trimPrefix | trimSuffix (Text) |
+	// b64enc | if_contains (Text) | regex_wrap
+	Kind  string `json:"kind"`
+	Text  string `json:"text,omitempty"`  // literal text, default value, needle
+	Text2 string `json:"text2,omitempty"` // replacement
+	A     string `json:"a,omitempty"`     // label
+	B     string `json:"b,omitempty"`     // second label (printf2)
+	N     int    `json:"n,omitempty"`     // width (alignLeft / alignRight)
 }
 
 // Rename is label_format Dst=Src.
